@@ -75,8 +75,156 @@ def trace_filter(code):
     return code.co_filename.endswith('lib/job_control.py')
 
 
+
+def _log_spawns(sched, shim, name_of):
+    """the instant the controller starts a job's thread is the beginning of its execution: from then on the
+    operating system may run it"""
+    orig = shim.Thread.start
+
+    def start(self):
+        owner = getattr(self._target, '__self__', None)
+        if isinstance(owner, job_control.Agent):
+            sched.log('spawn', name_of(owner))
+        return orig(self)
+    shim.Thread.start = start
+
+
+LS_HARNESSES = {
+    # client threads entering through the embedding API, bardolph.controller.ls_module.queue_script(text)
+    'ls:queue|queue': [['on "a"'], ['on "b"']],
+    'ls:queue2|queue': [['on "a"', 'off "a"'], ['on "b"']],
+}
+
+
+def _ls_trace_filter(code):
+    return code.co_filename.endswith(('lib/job_control.py', 'controller/ls_module.py'))
+
+
+def execute_ls(hname, chooser, opcode_points=False):
+    """Real scripts queued through ls_module from several client threads: the module is re-imported under the
+    shims for every execution, as a fresh process would import it."""
+    import importlib
+    from bardolph.controller import ls_module, script_job
+    from bardolph.lib import clock as clock_mod
+    scripts = LS_HARNESSES[hname]
+    sched = vthreads.Scheduler(chooser, horizon=200.0, max_steps=30000, trace_filter=_ls_trace_filter,
+                               opcode_points=opcode_points, trace_modules=(job_control, ls_module))
+    w = world.World((world.Dev('a', 'g', 'p'), world.Dev('b', 'g', 'p')), clock='real',
+                    overrides={'sleep_time': 1.0})
+    names = ['client%d' % i for i in range(len(scripts))] + ['t%d' % i for i in range(12)]
+    shim = vthreads.ShimThreadingModule(sched, names)
+    shimtime = vthreads.ShimTime(sched)
+    job_control.threading = shim
+    clock_mod.threading = shim
+    clock_mod.time = shimtime
+    importlib.reload(ls_module)
+    _log_spawns(sched, shim, lambda agent: getattr(agent.job, '_mc_text', '?'))
+    obs = dict(final=None, client_errors=[])
+    real_execute = script_job.ScriptJob.execute
+    counter = [0]
+
+    def execute_logged(self):
+        if not hasattr(self, '_mc_id'):
+            counter[0] += 1
+            self._mc_id = getattr(self, '_mc_text', 'job%d' % counter[0])
+        sched.log('start', self._mc_id)
+        try:
+            return real_execute(self)
+        finally:
+            if not sched.aborting:
+                sched.log('end', self._mc_id)
+    real_from_string = script_job.ScriptJob.from_string
+
+    def from_string_tagged(text):
+        job = real_from_string(text)
+        job._mc_text = text
+        return job
+    w.net.on_request = lambda label, op: sched.log('dev-req', label, op)
+
+    def client(idx, texts):
+        for k, text in enumerate(texts):
+            opid = 'c%d.%d' % (idx, k)
+            sched.log('call', opid, text)
+            try:
+                agent = ls_module.queue_script(text)
+                sched.log('ret', opid, agent is not None)
+            except vthreads._Unwind:
+                raise
+            except BaseException as ex:
+                obs['client_errors'].append((opid, repr(ex)))
+                sched.log('ret', opid, 'raised')
+
+    def main():
+        ths = [shim.Thread(target=client, args=(i, sc)) for i, sc in enumerate(scripts)]
+        for t in ths:
+            t.start()
+        for t in ths:
+            t.join()
+        jobs = lambda: [v for v in vars(ls_module.LsModule).values() if isinstance(v, job_control.JobControl)]
+        for _ in range(60):
+            if not any(jc.has_jobs() for jc in jobs()):
+                break
+            shimtime.sleep(1.0)
+        obs['final'] = dict(has_jobs=any(jc.has_jobs() for jc in jobs()), controllers=len(jobs()))
+    script_job.ScriptJob.execute = execute_logged
+    script_job.ScriptJob.from_string = staticmethod(from_string_tagged)
+    try:
+        verdict = sched.run(main)
+    finally:
+        script_job.ScriptJob.execute = real_execute
+        script_job.ScriptJob.from_string = staticmethod(real_from_string)
+    obs.update(verdict=verdict, events=sched.events, errors=sched.errors, points=sched.points, now=sched.now,
+               jobs={t: None for sc in scripts for t in sc})
+    return obs
+
+
+def judge_ls(hname, obs):
+    scripts = LS_HARNESSES[hname]
+    ev = obs['events']
+    if obs['verdict'] in ('DEADLOCK', 'SPIN', 'OVERRUN', 'HANG'):
+        return (obs['verdict'].lower(), 'verdict %s at virtual time %.1f' % (obs['verdict'], obs['now']))
+    for name, err in obs['errors']:
+        return ('exception-escapes-controller-thread', '%s: %s' % (name, err))
+    if obs['client_errors']:
+        return ('queue-call-raises', repr(obs['client_errors'][0]))
+    running = set()
+    counts = {}
+    for e in ev:
+        if e[2] == 'spawn':
+            if running:
+                return ('two-queued-jobs-at-once', 'the thread of %s was started while %s runs' % (e[3], sorted(running)))
+            running.add(e[3])
+        elif e[2] == 'start':
+            counts.setdefault(e[3], [0, 0])[0] += 1
+        elif e[2] == 'end':
+            counts.setdefault(e[3], [0, 0])[1] += 1
+            running.discard(e[3])
+    for sc in scripts:
+        for text in sc:
+            c = counts.get(text, [0, 0])
+            if c != [1, 1]:
+                return ('queued-job-not-executed-exactly-once', '%r started %d times, ended %d times' % (text, c[0], c[1]))
+    # order: a call that returned before another began starts first; one client's own calls in order
+    call = {e[3]: i for i, e in enumerate(ev) if e[2] == 'call'}
+    ret = {e[3]: i for i, e in enumerate(ev) if e[2] == 'ret'}
+    text_of = {e[3]: e[4] for e in ev if e[2] == 'call'}
+    start = {e[3]: i for i, e in enumerate(ev) if e[2] == 'start'}
+    for x in call:
+        for y in call:
+            if x != y and ret.get(x, 1 << 30) < call[y] and start[text_of[x]] > start[text_of[y]]:
+                return ('jobs-start-out-of-queue-order', '%r was queued before %r but started after it' % (text_of[x], text_of[y]))
+    n_dev = len([e for e in ev if e[2] == 'dev-req'])
+    if n_dev != sum(len(sc) for sc in scripts):
+        return ('queued-job-commands-missing-or-repeated', '%d device requests' % n_dev)
+    if obs['final'] is None or obs['final']['has_jobs']:
+        return ('controller-reports-jobs-after-everything-finished', repr(obs['final']))
+    return None
+
+
 def execute(hname, chooser, line_points=True, opcode_points=False):
     """One execution of a harness under the chooser; returns observation dict."""
+    if hname in LS_HARNESSES:
+        return execute_ls(hname, chooser, opcode_points)
     scripts = HARNESSES[hname]
     sched = vthreads.Scheduler(chooser, horizon=500.0, max_steps=20000, trace_filter=trace_filter,
                                line_points=line_points, opcode_points=opcode_points, trace_modules=(job_control,))
@@ -84,6 +232,7 @@ def execute(hname, chooser, line_points=True, opcode_points=False):
     # job threads are created in start order; client threads first
     shim = vthreads.ShimThreadingModule(sched, names)
     job_control.threading = shim
+    _log_spawns(sched, shim, lambda agent: agent.name)
     obs = dict(ops=[], final=None, jobs={}, client_errors=[])
     jc_box = {}
 
@@ -228,6 +377,8 @@ def linearizable(events, scripts):
 
 def judge(hname, obs):
     """-> None | (kind, detail)"""
+    if hname in LS_HARNESSES:
+        return judge_ls(hname, obs)
     scripts = HARNESSES[hname]
     ev = obs['events']
     if obs['verdict'] in ('DEADLOCK', 'SPIN', 'OVERRUN', 'HANG'):
@@ -242,10 +393,14 @@ def judge(hname, obs):
     running = set()
     counts = {}
     for e in ev:
-        if e[2] == 'start':
+        if e[2] == 'spawn' and e[3] not in background:
+            if running:
+                return ('two-queued-jobs-at-once', 'the thread of %s was started while %s runs' % (e[3], sorted(running)))
+            running.add(e[3])
+        elif e[2] == 'start':
             counts.setdefault(e[3], [0, 0])[0] += 1
             if e[3] not in background:
-                if running:
+                if running - {e[3]}:
                     return ('two-queued-jobs-at-once', '%s started while %s runs' % (e[3], sorted(running)))
                 running.add(e[3])
         elif e[2] == 'end':
@@ -314,6 +469,7 @@ def run(tier, seed):
     else:
         plan = [(h, 2, 6 if h in big else 2) for h in HARNESSES] + \
                [(h, 3, 16) for h in ('add|insert', 'add|add', 'raise|add', 'add3')]
+    plan += [('ls:queue|queue', 2, 8)] if tier == 'quick' else [('ls:queue|queue', 3, 16), ('ls:queue2|queue', 2, 16)]
     tasks = [(h, b, True, (r, n), False) for h, b, n in plan for r in range(n)]
     # visible-bytecode granularity (switches between the attribute reads of one line)
     if tier == 'quick':
@@ -349,12 +505,14 @@ def run(tier, seed):
         'traces_validated_against_impl': tot_exec, 'evaluations': tot_exec,
         'distinct_nontrivial': outcomes,
         'rule': 'all schedules with at most `bound` deviations (a switch away from a runnable thread, or a non-default choice of successor when the running thread blocks or ends) at line granularity '
-                'inside lib/job_control.py plus every shim operation, per harness; states/transitions = scheduling points '
+                'inside lib/job_control.py plus every shim operation, per harness (ls: harnesses enter through controller/ls_module.queue_script '
+                'with real scripts, real Machine and Clock over virtual time; the module is re-imported per execution); states/transitions = scheduling points '
                 'executed; distinct_nontrivial = distinct job start/end orders observed (summed over harnesses)',
         'exhaustive': True,
         'preemption_bounds_completed': sorted({k.rsplit('/bound', 1)[1] for k in per}),
         'harnesses': per,
-        'samples': [{'harness': 'add2|insert', 'clients': HARNESSES['add2|insert']},
+        'samples': [{'harness': 'ls:queue|queue', 'clients': LS_HARNESSES['ls:queue|queue']},
+                    {'harness': 'add2|insert', 'clients': HARNESSES['add2|insert']},
                     {'harness': 'wait-stop|add|stop', 'clients': HARNESSES['wait-stop|add|stop']}],
     }
     rep.assumptions = ['one thread runs at a time (baton); switch points: every line of lib/job_control.py and every Thread/RLock/Event/sleep '
